@@ -196,11 +196,12 @@ func (sw *SprayAndWait) ReportFailure(bp BundleDescriptor, sender cla.Convergenc
 		return
 	}
 
-	metadata.remainingCopies = metadata.remainingCopies + 1
-
+	// Only a peer selected by SenderForBundle has taken a copy. A failed direct delivery to the
+	// bundle's destination bypassed SenderForBundle and must not increase the budget.
 	for i := 0; i < len(metadata.sent); i++ {
 		if metadata.sent[i] == sender.GetPeerEndpointID() {
 			metadata.sent = append(metadata.sent[:i], metadata.sent[i+1:]...)
+			metadata.remainingCopies = metadata.remainingCopies + 1
 			break
 		}
 	}
